@@ -24,6 +24,56 @@ MUTS = [
  ('M15 bit counting starts one late (first 031031 of a run skipped)', CODER, "            if descriptor.id == 31031:\n                state.bitmap_definition_state = BITMAP_BIT_COUNTING\n                state.n_031031 += 1", "            if descriptor.id == 31031:\n                state.bitmap_definition_state = BITMAP_BIT_COUNTING"),
  ('M16 link keyed one item late', CODER, "        self.bitmap_links[len(self.decoded_descriptors)] = idx_descriptor", "        self.bitmap_links[len(self.decoded_descriptors) + 1] = idx_descriptor"),
 ]
+# ---- siblings of seeded/C07-2: something computed for one subset is remembered for the next one -------------
+SCAN = """        if not self.back_referenced_descriptors:
+            self.back_referenced_descriptors = []
+            for idx in range(self.back_reference_boundary - 1, -1, -1):
+                descriptor = self.decoded_descriptors[idx]
+                # The type has to be an exact match, not just isinstance
+                if type(descriptor) is ElementDescriptor:
+                    self.back_referenced_descriptors.insert(0, (idx, descriptor))
+                    if len(self.back_referenced_descriptors) == len(bitmap):
+                        break
+"""
+
+
+def memo(key, load='_memo[_key]', store='self.back_referenced_descriptors', guard='True'):
+    body = ''.join('    ' + l + '\n' for l in SCAN.split('\n')[1:-1])
+    return ("        if not self.back_referenced_descriptors:\n"
+            "            _memo = self.__dict__.setdefault('_memo', {})\n"
+            "            _key = " + key + "\n"
+            "            if (" + guard + ") and _key in _memo:\n"
+            "                self.back_referenced_descriptors = " + load + "\n"
+            "            else:\n" + body +
+            "                _memo[_key] = " + store + "\n")
+
+
+BUILD = """        self.bitmapped_descriptors = [
+            (idx, d) for bit, (idx, d) in zip(
+                bitmap,
+                self.back_referenced_descriptors
+            ) if bit == 0
+        ]
+"""
+MUTS += [
+ ('S1 scan remembered per message by (boundary, number of bits) [= seeded/C07-2]', CODER, SCAN, memo('(self.back_reference_boundary, len(bitmap))')),
+ ('S2 scan remembered per message by boundary only', CODER, SCAN, memo('self.back_reference_boundary')),
+ ('S3 scan remembered per message by number of bits only', CODER, SCAN, memo('len(bitmap)')),
+ ('S4 scan remembered as offsets below the boundary, by number of bits', CODER, SCAN,
+  memo('len(bitmap)', load='[(self.back_reference_boundary - k, self.decoded_descriptors[self.back_reference_boundary - k]) for k in _memo[_key]]',
+       store='[self.back_reference_boundary - i for i, _ in self.back_referenced_descriptors]')),
+ ('S5 scan remembered by (boundary, number of bits), encoder only', CODER, SCAN, memo('(self.back_reference_boundary, len(bitmap))', guard='self.idx_value > 0')),
+ ('S6 zero-bit selection remembered per message by (boundary, bits)', CODER, BUILD,
+  "        _sel = self.__dict__.setdefault('_sel', {})\n        _k = (self.back_reference_boundary, tuple(bitmap))\n        if _k not in _sel:\n"
+  "            _sel[_k] = [(idx, d) for bit, (idx, d) in zip(bitmap, self.back_referenced_descriptors) if bit == 0]\n        self.bitmapped_descriptors = _sel[_k]\n"),
+ ('S7 back references survive the switch to the next subset', CODER, "        self.reset_template_state()\n        self.decoded_descriptors = self.decoded_descriptors_all_subsets[idx_subset]",
+  "        _keep = self.back_referenced_descriptors\n        self.reset_template_state()\n        self.back_referenced_descriptors = _keep\n        self.decoded_descriptors = self.decoded_descriptors_all_subsets[idx_subset]"),
+ ('S8 boundary of the k-th operator remembered from the first subset that reached it', CODER,
+  "    def mark_back_reference_boundary(self):\n        self.back_reference_boundary = len(self.decoded_descriptors)",
+  "    def mark_back_reference_boundary(self):\n        _b = self.__dict__.setdefault('_bounds', {})\n"
+  "        _k = sum(1 for d in self.decoded_descriptors if getattr(d, 'id', 0) in (222000, 223000, 224000, 225000, 232000))\n"
+  "        self.back_reference_boundary = _b.setdefault(_k, len(self.decoded_descriptors))"),
+]
 sel = [a for a in sys.argv[3:] if a != '--oracle']
 ORACLE = '--oracle' in sys.argv
 for name, fn, a, b in MUTS:
